@@ -3,7 +3,7 @@
    model C07.Defs shared with C07) and ProofsBuddy*.v (buddy allocator model of C08.Defs). *)
 From CppcmsV Require Import Base.Tac C07.Defs C07.Spec C07.Util C07.ProofsInv C08.Defs C08.ProofsCache.
 From CppcmsV Require Import C08.BuddyArith C08.ProofsBuddy C08.ProofsBuddy2 C08.ProofsBuddy3 C08.ProofsBuddy4 C08.ProofsBuddy5.
-From CppcmsV Require Import C08.ResDefs C08.ProofsRes C08.ProofsRes2 C08.Link C08.LinkGuards gen.Gen_C08_hashmap gen.Gen_C08_guards.
+From CppcmsV Require Import C08.ResDefs C08.ProofsRes C08.ProofsRes2 C08.ProofsRes3 C08.Link C08.LinkGuards gen.Gen_C08_hashmap gen.Gen_C08_guards.
 Local Open Scope N_scope.
 
 (* ------------------------------------------------------------------------------------------------ *)
@@ -219,17 +219,34 @@ Theorem no_temporaries_between_operations : forall prot ops r, clean r -> clean 
 Proof. intros prot ops r. exact (clean_rrun prot ops r). Qed.
 Print Assumptions no_temporaries_between_operations.
 
-(* any limit: a clear() that does not throw leaves nothing recorded but the two bucket vectors; the in-use pages are those
-   vectors and the blocks of the other tenants *)
-Theorem clear_without_throw_leaves_only_bucket_vectors : forall ms F ops r0, ms - self_size < 2 ^ 63 -> RI ms F r0 -> clean r0 ->
-  let r1 := rrun src_prot ops r0 in
-  snd (nl_clear r1) = true ->
-  let r := rclear r1 in
-  only is_tv r /\ forall o, (exists b, used (r_a r) o b) <-> In (o + 16) (ptrs r ++ F).
-Proof. unfold src_prot. rewrite link_allocate_protected. exact clear_ok_leaves_vectors. Qed.
-Print Assumptions clear_without_throw_leaves_only_bucket_vectors.
+(* any limit: clear() - WHETHER OR NOT one of its two rehash calls throws - leaves nothing recorded but bucket vectors: no entry,
+   no trigger (the four indexes are empty and consistent); the in-use pages are those vectors and the blocks of the other tenants.
+   The same holds after a store whose bad_alloc handler ran nl_clear() (r_store ends with rclear on that path). *)
+Theorem clear_always_empties_the_indexes : forall ms F ops r0, ms - self_size < 2 ^ 63 -> RI ms F r0 -> clean r0 ->
+  let r := rclear (rrun src_prot ops r0) in
+  only is_tv r /\ count is_pn r = 0 /\ count is_tn r = 0 /\
+  forall o, (exists b, used (r_a r) o b) <-> In (o + 16) (ptrs r ++ F).
+Proof. unfold src_prot. rewrite link_allocate_protected. exact clear_leaves_vectors. Qed.
+Print Assumptions clear_always_empties_the_indexes.
 
-(* limit 0: clear() can not throw; afterwards the cache records no block and the in-use pages are exactly those of the other tenants *)
+(* the cache stays usable, for every limit: a clear() goes through as soon as - with every container emptied - the allocator has a
+   free page for a bucket vector (has_room), and one again after the first vector was re-created; nothing is needed for limit 0.
+   After a clear()/store whose nl_clear() threw, the state holds nothing but bucket vectors (previous theorem), so the retry needs no
+   more than these two pages: the failure is transient, not a wedge (it was one before /repo a6386b3). *)
+Theorem clear_succeeds_once_memory_is_available : forall r, r_faults r = [] ->
+  let r1 := free_where trigger_side (free_where primary_side r) in
+  (0 < r_limit r -> has_room (r_a r1) (sz_bucket * r_limit r)) ->
+  (0 < r_limit r -> forall r2, regrow true r1 = (r2, true) -> has_room (r_a r2) (sz_bucket * r_limit r)) ->
+  snd (nl_clear r) = true.
+Proof. exact clear_succeeds_with_room. Qed.
+Print Assumptions clear_succeeds_once_memory_is_available.
+
+(* fetch (lru.splice since /repo 117bb4c) obtains and releases nothing: the block set, the allocator and the tables are untouched *)
+Theorem fetch_never_changes_the_block_set : forall prot k r, rstep prot (RFetch k) r = r.
+Proof. reflexivity. Qed.
+Print Assumptions fetch_never_changes_the_block_set.
+
+(* limit 0: clear() allocates nothing and can not throw; afterwards the cache records no block and the in-use pages are exactly those of the other tenants *)
 Theorem clear_releases_everything : forall ms F ops r0, ms - self_size < 2 ^ 63 -> RI ms F r0 -> clean r0 -> r_limit r0 = 0 ->
   let r := rclear (rrun src_prot ops r0) in
   r_b r = [] /\ forall o, (exists b, used (r_a r) o b) <-> In (o + 16) F.
@@ -245,19 +262,30 @@ Theorem exhaust_clear_restores_fresh_segment : forall ms ops, ms - self_size < 2
 Proof. unfold src_prot. rewrite link_allocate_protected. exact clear_restores_fresh_segment. Qed.
 Print Assumptions exhaust_clear_restores_fresh_segment.
 
-(* REFUTED for limit >= 16 (finding 1 of docs/C08.md; the premise `snd (nl_clear r1) = true` above can fail): nl_clear() re-creates
-   the bucket vector of primary while the trigger index still holds its blocks.  16 KiB segment, limit 64: one store with 80 trigger
-   names of 20 bytes exhausts the segment, the nl_clear() of the bad_alloc handler throws: afterwards no entry is recorded but 108
-   blocks of the trigger index still are, clear() throws again and releases nothing (2464 of 12256 bytes free).  Replayed on the real
-   cache: `exh 16 64 1000 40 M S:16:0:80:20-20:1 M C M` answers s!1/34 ... c!1/34. *)
-Theorem limited_cache_clear_throws_refuted :
+(* regression of finding 1 (was limited_cache_clear_throws_refuted: before a6386b3 this history left 108 blocks of the trigger index
+   recorded with no entry, and every later clear() threw).  16 KiB segment, limit 64, one store with 80 trigger names of 20 bytes
+   exhausts the segment: now the nl_clear() of the handler goes through - only the two bucket vectors are recorded, a clear() would
+   succeed, the next store (and a fetch) work.  Corpus: corpus/C08/regress_clear_in_handler.case *)
+Example limit64_exhaustion_recovers :
   let r0 := rclear (r_init (b_init 16928) 64) in
   let r1 := rrun true [RStore k16 [] (map (fun i => i :: repeat 116 19) (nseq 0 80)) []] r0 in
-  length (r_b r0) = 2%nat /\ total_free_memory (r_a r0) = 12256 /\
-  count is_pn r1 = 0 /\ count trigger_side r1 = 108 /\ snd (nl_clear r1) = false /\
-  total_free_memory (r_a (rclear r1)) = 2464.
+  let r2 := rrun true [RStore k16 [] [[84;1;2;3;4;5;6;7;8;9;0;1;2;3;4;5;6]] []; RFetch k16] r1 in
+  (length (r_b r0) = 2%nat /\ total_free_memory (r_a r0) = 12256) /\
+  (length (r_b r1) = 2%nat /\ count is_pn r1 = 0 /\ count trigger_side r1 = 0 /\ snd (nl_clear r1) = true) /\
+  (count is_pn r2 = 1 /\ count trigger_side r2 = 6 /\ length (r_b r2) = 14%nat).
 Proof. vm_compute. repeat split; reflexivity. Qed.
-Print Assumptions limited_cache_clear_throws_refuted.
+
+(* a rehash that throws INSIDE the bad_alloc handler is transient: the key copy of a store fails (4th allocation) and so does the
+   vector allocation of the handler's nl_clear() (injected): std::bad_alloc leaves store(), the cache holds its two old bucket
+   vectors and nothing else; the next clear() re-creates them, the next store goes through *)
+Example rehash_failure_in_the_handler_is_transient :
+  let r0 := rclear (r_init (b_init 16928) 64) in
+  let q1 := rrun true [RInject [false; false; false; true; true]; RStore k16 [] [] []] r0 in
+  let q2 := rrun true [RClear] q1 in
+  let q3 := rrun true [RStore k16 [] [] []] q2 in
+  (map fst (r_b q1) = [TV false 2; TV true 1] /\ r_faults q1 = [] /\ total_free_memory (r_a q1) = 12256) /\
+  map fst (r_b q2) = [TV false 4; TV true 3] /\ (count is_pn q3 = 1 /\ length (r_b q3) = 10%nat).
+Proof. vm_compute. repeat split; reflexivity. Qed.
 
 (* the catch block of basic_map::allocate is necessary: without it (prot = false) one store of a 16-byte key into a segment
    with 448 usable bytes - the key copy inside the freshly allocated node fails - leaves the 256-byte page of the node in use
